@@ -1,13 +1,207 @@
-import TapkeeVerif.Model.Params
+import TapkeeVerif.Proofs.ParamsBridge
 import TapkeeVerif.Model.Chain
-/-! Property C13 (work in progress: the full theorem list follows). -/
-namespace TapkeeVerif.C13
-open TapkeeVerif.Front TapkeeVerif.Gen TapkeeVerif.Params
+/-!
+# Property C13 — the result depends on the data only through callback values, however supplied
 
-/-- Manifold Sculpting mentions the distance callback, which its traits do not declare (finding F-MS-TRAITS) -/
-theorem uses_only_declared_refuted :
-    ¬ ∀ m : Meth, ∀ c ∈ callbacksMentioned m, c ∈ declaredNeeds m := by
+* the chain interface (`Model/Chain.lean`, transcribed class by class from chain_interface.hpp) hands `tapkee::embed`
+  the same parameters and callbacks whatever the order of attachment;
+* `tapkee::embed` is a function of the callbacks *as functions*: two call forms whose callbacks return the same values
+  are indistinguishable (the tie of this statement to the code is the correspondence harness `c13_forms.cpp`);
+* declared versus used callbacks, over the regenerated tables `Gen.embedBody` / `Meth.traits`.
+-/
+namespace TapkeeVerif.C13
+open TapkeeVerif.Front TapkeeVerif.Gen TapkeeVerif.Params TapkeeVerif.Chain TapkeeVerif.C14
+
+/-! ## order of attachment -/
+
+section Chain
+variable {π κ δ φ : Type}
+
+/-- two consecutive attachments commute, from every state class (by cases on the state machine) -/
+theorem step_swap (s : State π κ δ φ) (a b : Op κ δ φ) (l : List (Op κ δ φ)) :
+    run s (a :: b :: l) = run s (b :: a :: l) := by
+  cases s <;> cases a <;> cases b <;> rfl
+
+theorem run_perm {l l' : List (Op κ δ φ)} (h : l.Perm l') : ∀ s : State π κ δ φ, run s l = run s l' := by
+  induction h with
+  | nil => intro s; rfl
+  | cons x _ ih =>
+    intro s
+    simp only [run]
+    cases step s x with
+    | none => rfl
+    | some s' => exact ih s'
+  | swap x y l => intro s; exact step_swap s y x l
+  | trans _ _ ih1 ih2 => intro s; rw [ih1 s, ih2 s]
+
+/-- **Order of attachment is irrelevant.**  For every list of `withKernel / withDistance / withFeatures` calls and every
+    reordering of it, `tapkee::embed` receives the same parameters and the same three callbacks (or neither chain
+    compiles).  This covers all 6 orders of three callbacks, both orders of two, and every partial chain. -/
+theorem chain_order_irrelevant (p : π) (ops ops' : List (Op κ δ φ)) (h : ops.Perm ops') :
+    chain p ops = chain p ops' := by
+  simp only [chain, run_perm h]
+
+/-- each callback ends up in its own slot; missing ones are dummies -/
+theorem chain_slots (p : π) (k : κ) (d : δ) (f : φ) :
+    chain p [.withKernel k, .withDistance d, .withFeatures f] = some ⟨p, some k, some d, some f⟩ ∧
+    chain p [(.withDistance d : Op κ δ φ), .withFeatures f] = some ⟨p, none, some d, some f⟩ ∧
+    chain p [(.withKernel k : Op κ δ φ), .withFeatures f] = some ⟨p, some k, none, some f⟩ ∧
+    chain p [(.withKernel k : Op κ δ φ), .withDistance d] = some ⟨p, some k, some d, none⟩ ∧
+    chain p [(.withKernel k : Op κ δ φ)] = some ⟨p, some k, none, none⟩ ∧
+    chain p [(.withDistance d : Op κ δ φ)] = some ⟨p, none, some d, none⟩ ∧
+    chain p [(.withFeatures f : Op κ δ φ)] = some ⟨p, none, none, some f⟩ :=
+  ⟨rfl, rfl, rfl, rfl, rfl, rfl, rfl⟩
+
+/-- e.g. all six orders of three callbacks -/
+example (p : π) (k : κ) (d : δ) (f : φ) :
+    chain p [.withFeatures f, .withDistance d, .withKernel k] = some ⟨p, some k, some d, some f⟩ := by
+  rw [chain_order_irrelevant p _ [.withKernel k, .withDistance d, .withFeatures f]]
+  · exact (chain_slots p k d f).1
+  · exact (List.Perm.swap _ _ _).trans ((List.Perm.cons _ (List.Perm.swap _ _ _)).trans (List.Perm.swap _ _ _))
+
+/-- a callback cannot be attached twice (the member function does not exist in the state reached) -/
+theorem chain_no_repeat (p : π) (ops : List (Op κ δ φ)) (c : Call π κ δ φ) (h : chain p ops = some c) :
+    (ops.map Op.kind).Nodup := by
+  have key : ∀ (l : List (Op κ δ φ)) (s : State π κ δ φ), (run s l).isSome →
+      (l.map Op.kind).Nodup ∧ ∀ o ∈ l, (step s o).isSome := by
+    intro l
+    induction l with
+    | nil => intro s _; simp
+    | cons o t ih =>
+      intro s hs
+      simp only [run] at hs
+      cases hst : step s o with
+      | none => simp [hst] at hs
+      | some s' =>
+        simp only [hst] at hs
+        obtain ⟨hnd, hall⟩ := ih s' hs
+        refine ⟨?_, ?_⟩
+        · simp only [List.map_cons, List.nodup_cons]
+          refine ⟨?_, hnd⟩
+          intro hmem
+          obtain ⟨o', ho', hk⟩ := List.mem_map.mp hmem
+          have := hall o' ho'
+          cases s <;> cases o <;> simp [step] at hst <;> subst hst <;> cases o' <;> simp_all [step, Op.kind]
+        · intro o' ho'
+          rcases List.mem_cons.mp ho' with rfl | hmem
+          · simp [hst]
+          · have := hall o' hmem
+            cases s <;> cases o <;> simp [step] at hst <;> subst hst <;> cases o' <;> simp_all [step]
+  cases hr : run (State.P p) ops with
+  | none => simp [chain, hr] at h
+  | some s => exact (key ops _ (by simp [hr])).1
+
+end Chain
+
+/-! ## callbacks as functions -/
+
+/-- **Extensionality in the callbacks.**  Whatever `tapkee::embed` computes from a call (`E` below is *any* function of
+    the parameters and the three callbacks, the callbacks being functions of sample positions), two calls whose
+    callbacks return the same values on all samples give the same result.  The four call forms of the property are
+    instances (below): they differ only in how the values are produced. -/
+theorem callbacks_extensional {π K β : Type} {N D : Nat} (E : Call π (Fin N → Fin N → K) (Fin N → Fin N → K) (Fin N → Fin D → K) → β)
+    (p : π) (κ κ' δ δ' : Fin N → Fin N → K) (ϕ ϕ' : Fin N → Fin D → K)
+    (hk : ∀ i j, κ i j = κ' i j) (hd : ∀ i j, δ i j = δ' i j) (hf : ∀ i a, ϕ i a = ϕ' i a) :
+    E ⟨p, some κ, some δ, some ϕ⟩ = E ⟨p, some κ', some δ', some ϕ'⟩ := by
+  have h1 : κ = κ' := funext fun i => funext fun j => hk i j
+  have h2 : δ = δ' := funext fun i => funext fun j => hd i j
+  have h3 : ϕ = ϕ' := funext fun i => funext fun a => hf i a
+  rw [h1, h2, h3]
+
+/-- a sequence of arbitrary objects with callbacks on objects induces callbacks on positions; `embedRange` over the
+    objects is the call with the induced callbacks, so it equals the index form whenever the values agree -/
+theorem object_sequence_form {π K β Obj : Type} {N D : Nat}
+    (E : Call π (Fin N → Fin N → K) (Fin N → Fin N → K) (Fin N → Fin D → K) → β) (p : π)
+    (objs : Fin N → Obj) (kO dO : Obj → Obj → K) (fO : Obj → Fin D → K)
+    (κ δ : Fin N → Fin N → K) (ϕ : Fin N → Fin D → K)
+    (hk : ∀ i j, kO (objs i) (objs j) = κ i j) (hd : ∀ i j, dO (objs i) (objs j) = δ i j)
+    (hf : ∀ i a, fO (objs i) a = ϕ i a) :
+    E ⟨p, some (fun i j => kO (objs i) (objs j)), some (fun i j => dO (objs i) (objs j)), some (fun i => fO (objs i))⟩ =
+      E ⟨p, some κ, some δ, some ϕ⟩ :=
+  callbacks_extensional E p _ _ _ _ _ _ hk hd hf
+
+/-- precomputed matrices: looking the values up is the same call as computing them -/
+theorem precomputed_form {π K β : Type} {N D : Nat}
+    (E : Call π (Fin N → Fin N → K) (Fin N → Fin N → K) (Fin N → Fin D → K) → β) (p : π)
+    (κ δ : Fin N → Fin N → K) (ϕ : Fin N → Fin D → K) (Kmat Dmat : Fin N → Fin N → K)
+    (hk : ∀ i j, Kmat i j = κ i j) (hd : ∀ i j, Dmat i j = δ i j) :
+    E ⟨p, some (fun i j => Kmat i j), some (fun i j => Dmat i j), some ϕ⟩ = E ⟨p, some κ, some δ, some ϕ⟩ :=
+  callbacks_extensional E p _ _ _ _ _ _ hk hd (fun _ _ => rfl)
+
+/-- `embedUsing(matrix)` is the index form with the three eigen callbacks, attached in any order -/
+theorem matrix_form_eq_chain {π κ δ φ : Type} (p : π) (ek : κ) (ed : δ) (ef : φ) (ops : List (Op κ δ φ))
+    (h : ops.Perm [.withKernel ek, .withDistance ed, .withFeatures ef]) :
+    chain p ops = some (embedMatrix p ek ed ef) := by
+  rw [chain_order_irrelevant p ops _ h]; rfl
+
+/-! ## declared and used callbacks -/
+
+/-- the full statement: a method's `embed()` mentions only callbacks its traits declare -/
+def UsesOnlyDeclared : Prop := ∀ m : Meth, ∀ c ∈ callbacksMentioned m, c ∈ declaredNeeds m
+
+/-- **Finding F-MS-TRAITS.**  False of the code as it stands: Manifold Sculpting declares `RequiresFeatures` but hands
+    `plain_distance` to `find_neighbors_with` and `distance` to `manifold_sculpting_embed`. -/
+theorem uses_only_declared_refuted : ¬ UsesOnlyDeclared := by
   intro h
   exact absurd (h .ManifoldSculpting .distance (by decide)) (by decide)
+
+/-- every other method mentions only what it declares (over-declaration, e.g. SPE's features, is allowed) -/
+theorem uses_only_declared_partial :
+    ∀ m : Meth, m ≠ .ManifoldSculpting → ∀ c ∈ callbacksMentioned m, c ∈ declaredNeeds m := by decide
+
+/-- the full statement: supplying exactly (at least) the declared callbacks is sufficient - the front end never
+    answers `unsupported_method_error` -/
+def DeclaredSuffices : Prop :=
+  ∀ (r : Request) (m : Meth), (r.kws.map Param.kw).Nodup → WellTyped r → (⟨.method, .method m⟩ : Param) ∈ r.kws →
+    DeclaredSupplied m r → (frontEnd r).outcome ≠ .threw (errT .unsupported_method_error)
+
+/-- witness of F-MS-TRAITS at the level of the front end: Manifold Sculpting on 10 samples with the features
+    callback only (all it declares) is answered by `unsupported_method_error` (the dummy distance callback throws) -/
+def msWitness : Request := ⟨10, [⟨.method, .method .ManifoldSculpting⟩], false, false, true, false⟩
+
+theorem declared_suffices_refuted : ¬ DeclaredSuffices := by
+  intro h
+  have hw : (frontEnd msWitness).outcome = .threw (errT .unsupported_method_error) := by decide +kernel
+  exact h msWitness .ManifoldSculpting (by decide) (by intro p hp; simp [msWitness] at hp; subst hp; rfl)
+    (by simp [msWitness]) (by simp [DeclaredSupplied, Meth.traits, msWitness]) hw
+
+/-- for every method that mentions only what it declares (all but Manifold Sculpting, `uses_only_declared_partial`),
+    for all N, all well-typed values and both harness modes: with the declared callbacks supplied the front end never
+    answers `unsupported_method_error` -/
+theorem declared_suffices_partial (r : Request) (m : Meth) (hn : (r.kws.map Param.kw).Nodup) (ht : WellTyped r)
+    (hm : (⟨.method, .method m⟩ : Param) ∈ r.kws) (hs : DeclaredSupplied m r)
+    (hu : ∀ c ∈ callbacksMentioned m, c ∈ declaredNeeds m) :
+    (frontEnd r).outcome ≠ .threw (errT .unsupported_method_error) := by
+  have htyped := merged_typed r ht ⟨_, hm, rfl⟩
+  have hmeth : (typedOf (merged r).pmap).meth .method = m := by
+    have h := explicit_values_kept r hn _ hm
+    simp only [PSet.get] at h
+    cases hl : lookup Kw.method (merged r).pmap with
+    | none => simp [hl] at h
+    | some v => simp [hl] at h; subst h; simp [typedOf, hl]
+  obtain ⟨-, -, h3, h4⟩ := verdict m r (typedOf (merged r).pmap) (merged r) (typedOf_get (merged r) htyped) hmeth
+  have hall : ∀ c ∈ callbacksMentioned m, r.has c = true := by
+    intro c hc
+    have hd := hu c hc
+    simp only [declaredNeeds, List.mem_filter] at hd
+    obtain ⟨hs1, hs2, hs3⟩ := hs
+    cases c <;> simp only [Traits.needs] at hd <;> simp [Request.has, hs1, hs2, hs3, hd.2]
+  have h3 := h3 hs hall
+  rw [frontEnd_eq r hn]
+  generalize afterMerge r (merged r) = x at h3 h4 ⊢
+  obtain ⟨a, c⟩ := x
+  cases a with
+  | ok s => simp [finish]
+  | error s =>
+    cases s with
+    | reached cb => simp [finish]
+    | threw e =>
+      intro hcontra
+      simp only [finish, Outcome.threw.injEq] at hcontra
+      rcases h4 e rfl with rfl | rfl | rfl | rfl
+      · revert hcontra; decide
+      · revert hcontra; decide
+      · revert hcontra; decide
+      · exact h3 rfl
 
 end TapkeeVerif.C13
